@@ -32,6 +32,9 @@ func Main(args []string) int {
 	logger.SetLogLevel(logger.FatalLevel)
 	defs.InputLogMaxMessageBytes = *maxMsg
 	defs.InputLogMaxRecordBytes = *maxRec
+	// every record of this run keeps its fields in a pooled backing buffer that is recycled at Release (production: lines
+	// over 1024 bytes), so anything the long-lived parser remembers from an earlier line meets the next line's bytes
+	defs.InputLogMinRecordBytesToPool = 8
 	schema := syslogprotocol.RFC5424Schema
 	mappings := [][]string{
 		{"emerg", "alert", "crit", "err", "warn", "notice", "info", "debug"},
